@@ -110,7 +110,7 @@ package cbreaker
 //@   ensures runs_once: calls(s.Exec) == 1
 
 //@ func (*CircuitBreaker).setState
-//@   props C05 C18
+//@   props C05 C12 C18
 //@   holds c.m
 //@   requires legal_transition: edge(c.state, state)
 //@   modifies c.state, c.until
@@ -140,7 +140,7 @@ package cbreaker
 //@   ensures fallback_period_over: !callres(isStandby, 0, 0) && old(c.state) == 1 && lastclock >= old(c.until) ==> c.state == 2 || c.state == 0
 
 //@ func (*CircuitBreaker).checkAndSet
-//@   props C05 C18
+//@   props C05 C12 C18
 //@   assume clock_stable
 //@   modifies c.state, c.until, c.lastCheck, everything
 //@   ensures not_due_no_change: !callres(timeToCheck, 0, 0) ==> calls(c.condition) == 0 && calls(Reset) == 0
